@@ -250,9 +250,9 @@ async def _(c):
 async def _(c):
     p, u = Pipe(c.p['thr']), UnboundedPipe()
     for label, mk in (('bounded_zero', lambda: p.transfer(0)), ('bounded_zero_limit', lambda: p.transfer(0, c.p['thr'] / 2)),
-                      ('unbounded_v', lambda: u.transfer(c.p['v'] + 1)), ('unbounded_zero', lambda: u.transfer(0)),
+                      ('unbounded_v', lambda: u.transfer(abs(c.p['v']) + 1)), ('unbounded_zero', lambda: u.transfer(0)),
                       ('unbounded_zero_limit', lambda: u.transfer(0, 1)),
-                      ('unbounded_inf_limit', lambda: u.transfer(c.p['v'] + 1, float('inf')))):
+                      ('unbounded_inf_limit', lambda: u.transfer(abs(c.p['v']) + 1, float('inf')))):
         c.mark(label + ':s')
         await mk()
         c.mark(label + ':e')
@@ -383,6 +383,9 @@ class C20(Check):
         out = Outcome()
         if case['op'] not in OPS:
             raise InvalidCase('unknown op')
+        pp = case['p']
+        if not (pp['thr'] > 0 and pp['amount'] >= 0 and 1 <= case['k'] <= 8):
+            raise InvalidCase('parameters outside the documented domain')
         c = Ctx(case['k'], case['p'])
         roots = [subject(c, case['op'], case['pos'])] + [spinner(c, j) for j in range(case['k'])]
         outcome, exc, p = run_probed(roots, start=case['start'], probe=Probe(b_step=5000, b_total=50000))
